@@ -45,6 +45,18 @@ def saturated_retry(wait, n=2, retry_max=3, nw=1):
     return p
 
 
+def two_timers(gap_ms=30):
+    """b and c both accept A and both fail; b's retry is due after 1 s, c's `gap_ms` later: two wake-ups of one run close
+    together -- each retry waits for ITS OWN due time."""
+    return {"timeout": None, "obs_step": "c", "steps": {
+        "a": {"accepts": ["Start"], "nw": 1, "body": [G, {"op": "ret", "ty": "A"}]},
+        "b": {"accepts": ["A"], "nw": 1, "retry": {"max": 3, "wait": ["fixed", 1]},
+              "body": [G, {"op": "fail", "until": 99}, {"op": "none"}]},
+        "c": {"accepts": ["A"], "nw": 1, "retry": {"max": 3, "wait": ["fixed_td", 1000 + gap_ms]},
+              "body": [G, {"op": "fail", "until": 99}, {"op": "stop"}]},
+    }}
+
+
 def overlap(nw_b=1, nw_c=2, n=2):
     """a sends n events A; both b and c accept A (broadcast to two accepting steps); d collects."""
     return {"timeout": None, "steps": {
@@ -477,6 +489,8 @@ def family(name, quick=True):
         out.append(("incr(1,2,max=4)", pipeline(retry_max=5, wait=["incr", 1, 2, 4], fail_until=99), []))
         out.append(("fixed(3)", pipeline(retry_max=3, wait=["fixed", 3], fail_until=99), []))
         out.append(("fixed(timedelta 1500ms)", pipeline(retry_max=3, wait=["fixed_td", 1500], fail_until=99), []))
+    elif name == "waits_close":
+        out.append(("two_timers(30ms apart)", two_timers(30), []))
     elif name == "waits_queue":
         out.append(("saturated incr(1,2,max=100)", saturated_retry(["incr", 1, 2, 100]), []))
         out.append(("saturated exp(1,3,max=100)", saturated_retry(["exp", 1, 3, 100]), []))
